@@ -121,8 +121,13 @@ def ac_control(data):
 
 # ---- console-side builders (for scripted consoles): bytes from meaning
 
+def _name_bytes(s):
+    """A name is a str or already a list of UTF-8 byte values (possibly symbolic)."""
+    return list(s.encode("utf-8")) if isinstance(s, str) else list(s)
+
+
 def c_string(s, n):
-    b = s.encode("utf-8")[:n]
+    b = _name_bytes(s)[:n]
     return list(b) + [0] * (n - len(b))
 
 
